@@ -48,8 +48,8 @@ TUserCb    == IsEv("cb") /\ UNCHANGED <<msgVars, lastRan>>
                     /\ inst[r.i].u = 1000 + E.m /\ r.arg = E.arg /\ r.on = E.t
                     /\ r.how = "queued" => E.cur = E.t
               /\ E.m \notin ucb /\ ucb' = ucb \cup {E.m}
-TQuiesce   == IsEv("quiesce") /\ Drained /\ UNCHANGED <<msgVars, lastRan, ucb>>
-TReset     == IsEv("Reset") /\ InitMsg("RUNNING")' /\ lastRan' = [p \in Procs |-> 0] /\ ucb' = {}
+TQuiesce   == IsEv("quiesce") /\ Drained /\ C05Safety /\ UNCHANGED <<msgVars, lastRan, ucb>>
+TReset     == IsEv("Reset") /\ ResetMsg("RUNNING") /\ lastRan' = [p \in Procs |-> 0] /\ ucb' = {}
 
 TNext == \/ TEnter \/ TDirect \/ TRunning \/ TNotRun \/ TWrite \/ TReturn
          \/ TRead \/ TRun \/ TUserCb \/ TQuiesce \/ TReset
